@@ -6,6 +6,7 @@
 -/
 import Nq.Lemmas.SmtpFraming
 import Nq.Lemmas.SmtpSim
+import Nq.Lemmas.HopCount
 
 namespace Nq.Props.C05
 open Nq Nq.SmtpIn Nq.SmtpRef Nq.SmtpOut Nq.Wire Nq.Lemmas
@@ -62,6 +63,40 @@ theorem C05_roundtrip_remote (m e rest : Bytes) (h : rblast m = some e) :
   have := sim rest m .top .s1 e (by simp [rel]) h
   simpa [dblast, pend, cst, canon, emit] using this
 
+/-! ### The hop counter that runs over the same bytes -/
+
+/-- **C05_hops.**  The `pos / flagmaybex / flagmaybey / flagmaybez / flaginheader` scanner inside `blast()`
+(`hstep`, folded over the bytes `blast()` reads: `hopsOf`) computes, **for every byte stream**, the line-based
+hop count `HopCount.hopSpec`: the number of lines (pieces between LFs, the unterminated last piece included)
+before the first empty line (CR alone) whose first 8 bytes are `received` or whose first 9 bytes are
+`delivered`, ignoring ASCII case. -/
+theorem C05_hops (consumed : Bytes) : hopsOf consumed = Nq.HopCount.hopSpec consumed :=
+  Nq.Lemmas.HopCount.hopsOf_eq_hopSpec consumed
+
+/-- the scanner is a fold: what it reports for an accepted message is the count over exactly the bytes
+`blast()` consumed (everything up to and including the terminating `.` CR LF), and the bytes of the next
+command do not influence it -/
+theorem C05_hops_accepted (inp body rest : Bytes) (h : dblast inp = .accepted body rest) :
+    ∃ used, inp = used ++ rest ∧ inp.take (inp.length - rest.length) = used ∧
+      hopsOf (inp.take (inp.length - rest.length)) = Nq.HopCount.hopSpec used := by
+  obtain ⟨used, e, _⟩ := C05_barelf inp body rest h
+  refine ⟨used, e, ?_, ?_⟩
+  · rw [e]; simp
+  · rw [C05_hops, e]; simp
+
+/-- once the header is over (first empty line) nothing is counted any more, whatever follows -/
+theorem C05_hops_body (hdr body : Bytes) (h : LF ∉ hdr ∨ True) :
+    Nq.HopCount.hopSpec (hdr ++ [LF, CR, LF] ++ body) = Nq.HopCount.hopSpec (hdr ++ [LF, CR, LF]) := by
+  rw [← C05_hops, ← C05_hops]
+  have e : hdr ++ [LF, CR, LF] ++ body = (hdr ++ [LF, CR, LF]) ++ body := rfl
+  rw [e]
+  show Nq.Lemmas.HopCount.hrun {} _ |>.hops = (Nq.Lemmas.HopCount.hrun {} _).hops
+  rw [Nq.Lemmas.HopCount.hrun_append]
+  have hout : (Nq.Lemmas.HopCount.hrun {} (hdr ++ [LF, CR, LF])).inHeader = false := by
+    rw [show hdr ++ [LF, CR, LF] = (hdr ++ [LF]) ++ [CR, LF] by simp, Nq.Lemmas.HopCount.hrun_append]
+    exact Nq.Lemmas.HopCount.empty_line_ends _
+  rw [Nq.Lemmas.HopCount.hrun_out _ _ hout]
+
 /-! ### Non-vacuity (13 = CR, 10 = LF, 46 = '.', 120 = 'x') -/
 
 /-- "x CR LF . CR Y CR LF . CR LF QUIT": the `.`CR line loses its dot (the repaired case) -/
@@ -72,5 +107,9 @@ example : completeLines [46, 97, 10] ∧ rfcEncode [46, 97, 10] = [46, 46, 97, 1
   constructor
   · right; decide
   · decide
+
+/-- "Received:" CR LF "DELIVERED-" CR LF "receive:" CR LF CR LF "Received:" CR LF: two hops (near miss and body line not counted) -/
+example : hopsOf [82, 101, 99, 101, 105, 118, 101, 100, 58, 13, 10, 68, 69, 76, 73, 86, 69, 82, 69, 68, 45, 13, 10,
+    114, 101, 99, 101, 105, 118, 101, 58, 13, 10, 13, 10, 82, 101, 99, 101, 105, 118, 101, 100, 58, 13, 10] = 2 := by decide
 
 end Nq.Props.C05
